@@ -369,10 +369,12 @@ def r5_priority_order(ctx):
 
 
 def cmp_elapsed(F, body):
-    """(op, elapsed-on-left?) of the comparison between the elapsed time (a saturating_sub result, possibly captured from the
-    enclosing function as an upvar) and something else."""
+    """expiry tests of a select in `body`, normalised to `elapsed OP timeout`: [(OP, form)].
+    Two equivalent spellings are recognised by what they compare:
+      * elapsed form:  (now - start_time) OP timeout        — the elapsed time is a saturating_sub result (possibly captured by a closure);
+      * deadline form: (start_time + timeout) OP' now       — the deadline is a saturating_add / checked_add / + whose operands read
+        SelectState.start_time (possibly handed to a closure by an Option / iterator adaptor); `deadline <= now` is `elapsed >= timeout`."""
     fl = Flow(body, through_named=True)
-    fl0 = Flow(body)
     subs = {t["dest"]["l"] for bi, t in body.calls() if (t.get("callee") or "").endswith("saturating_sub")}
     # upvars whose captured variable is a saturating_sub result in the parent body
     up_elapsed = set()
@@ -404,14 +406,66 @@ def cmp_elapsed(F, body):
                     if fs and fs[0][4] in up_elapsed:
                         return True
         return False
+
+    THROUGH = ("Try::branch", "Option::map", "Option::as_ref", "Option::copied", "Option::cloned", "Option::unwrap_or", "Iterator::min", "Iterator::next")
+
+    def deadline_locals(bd, f2):
+        out = set()
+        for _bi, t in bd.calls():
+            if (t.get("callee") or "").split("::")[-1] in ("saturating_add", "checked_add", "wrapping_add", "add") and t["args"]:
+                reads = set()
+                for a in t["args"]:
+                    pl = op_place(a)
+                    if pl:
+                        reads |= {f for _o, f in f2.slice_reads(pl["l"], through_calls=THROUGH)[0]}
+                if "start_time" in reads:
+                    out.add(t["dest"]["l"])
+        for _bi, _si, st in bd.stmts():
+            if st["k"] == "assign" and st["rv"]["k"] == "bin" and st["rv"]["op"].startswith("Add"):
+                reads = set()
+                for a in (st["rv"]["l"], st["rv"]["r"]):
+                    pl = op_place(a)
+                    if pl:
+                        reads |= {f for _o, f in f2.slice_reads(pl["l"], through_calls=THROUGH)[0]}
+                if "start_time" in reads:
+                    out.add(st["p"]["l"])
+        return out
+    dls = deadline_locals(body, fl)
+
+    def is_deadline(o, depth=0):
+        p = op_place(o)
+        if not p:
+            return False
+        back = fl.backward({p["l"]}, through_calls=THROUGH)
+        if back & dls:
+            return True
+        # a closure parameter: the payload of the receiver of the adaptor the closure is handed to (`opt.is_some_and(|deadline| ..)`)
+        if "::{closure" in body.key and any(2 <= x <= body.mir["argc"] for x in back):
+            use = F.closure_use(body.key)
+            if use:
+                pb, _b2, t2, ai = use
+                if ai > 0 and op_place(t2["args"][0]):
+                    pfl = Flow(pb, through_named=True)
+                    pback = pfl.backward({op_place(t2["args"][0])["l"]}, through_calls=THROUGH)
+                    if pback & deadline_locals(pb, pfl):
+                        return True
+        return False
     out = []
     for bi, si, s in body.stmts():
         if s["k"] == "assign" and s["rv"]["k"] == "bin" and s["rv"]["op"] in ("Ge", "Gt", "Le", "Lt"):
+            op = s["rv"]["op"]
             le, re_ = is_elapsed(s["rv"]["l"]), is_elapsed(s["rv"]["r"])
+            flip = {"Ge": "Le", "Gt": "Lt", "Le": "Ge", "Lt": "Gt"}
             if le and not re_:
-                out.append((s["rv"]["op"], True))
+                out.append((op, "elapsed"))
             elif re_ and not le:
-                out.append((s["rv"]["op"], False))
+                out.append((flip[op], "elapsed"))
+            else:
+                ld, rd = is_deadline(s["rv"]["l"]), is_deadline(s["rv"]["r"])
+                if ld and not rd:
+                    out.append((flip[op], "deadline"))       # deadline OP now  ==  now flip(OP) deadline  ==  elapsed flip(OP) timeout
+                elif rd and not ld:
+                    out.append((op, "deadline"))
     return out
 
 
@@ -434,10 +488,7 @@ def r6_timeouts(ctx):
     norm = {}
     for key, found in sib.items():
         short = key.split("::")[-1]
-        for n_, (op, left) in enumerate(found):
-            # normalise to elapsed OP timeout
-            if not left:
-                op = {"Ge": "Le", "Gt": "Lt", "Le": "Ge", "Lt": "Gt"}[op]
+        for n_, (op, _form) in enumerate(found):
             norm[(key, n_)] = op
             ctx.check(op in ("Ge", "Gt"), R, key + "|direction" + ("#%d" % n_ if n_ else ""), "%s: expires when elapsed %s timeout" % (short, ">=" if op == "Ge" else ">"),
                       "%s: the expiry comparison is reversed (elapsed %s timeout): a timeout could fire early" % (short, op))
